@@ -5,7 +5,9 @@ import (
 	"encoding/json"
 	"fmt"
 	"hash/crc32"
+	"io"
 	"strings"
+	"time"
 
 	"github.com/rs/zerolog"
 )
@@ -55,6 +57,27 @@ func lineID(p []byte) int {
 
 type trigDest struct{ got [][2]int }
 
+// plainDest is a destination that is an io.Writer only (no WriteLevel): the lines must arrive all the same; their levels
+// are not observable there (recorded as -999 and not compared)
+type plainTrigDest struct{ d *trigDest }
+
+func (p plainTrigDest) Write(b []byte) (int, error) { return p.d.Write(b) }
+
+// a call that does not come back is an observation, not a dead player: after the first one the plain-destination variant
+// is no longer used in this process
+var trigHung bool
+
+func returnsInTime(f func()) bool {
+	done := make(chan struct{})
+	go func() { f(); close(done) }()
+	select {
+	case <-done:
+		return true
+	case <-time.After(10 * time.Second):
+		return false
+	}
+}
+
 func (d *trigDest) Write(p []byte) (int, error) {
 	d.got = append(d.got, [2]int{-999, lineID(p)}) // Write instead of WriteLevel: the level was lost
 	return len(p), nil
@@ -70,13 +93,18 @@ func (f *trigFam) play(l *Line, out *rec) error {
 		return fmt.Errorf("unknown conf %q", l.Conf)
 	}
 	d := &trigDest{}
-	w := &zerolog.TriggerLevelWriter{Writer: d, ConditionalLevel: zerolog.Level(c.Cond), TriggerLevel: zerolog.Level(c.Trig)}
-	out.emit(map[string]interface{}{"a": "Reset", "conf": c.Name, "id": l.ID})
+	h := crc32.ChecksumIEEE([]byte(l.ID))
+	var dw io.Writer = d
+	plain := h%4 == 1 && !trigHung
+	if plain {
+		dw = plainTrigDest{d}
+	}
+	w := &zerolog.TriggerLevelWriter{Writer: dw, ConditionalLevel: zerolog.Level(c.Cond), TriggerLevel: zerolog.Level(c.Trig)}
+	out.emit(map[string]interface{}{"a": "Reset", "conf": c.Name, "id": l.ID, "plain": plain})
 	// a COMPANION writer with the same thresholds and its own destination lives at the same time (every second history):
 	// from some point of the main history on it holds one line after each main operation, and after the main writer was
 	// closed it triggers. Writers share nothing but the buffer pool: the companion's history must satisfy the same
 	// contract by itself. Its records follow the main ones after a "Reset2" line.
-	h := crc32.ChecksumIEEE([]byte(l.ID))
 	var comp *zerolog.TriggerLevelWriter
 	cd := &trigDest{}
 	var crecs []map[string]interface{}
@@ -123,20 +151,28 @@ func (f *trigFam) play(l *Line, out *rec) error {
 		}
 		d.got = [][2]int{}
 		ok := true
-		switch op.A {
-		case "W":
-			p := append([]byte(nil), trigLines[op.S]...)
-			n, err := w.WriteLevel(zerolog.Level(op.L), p)
-			ok = err == nil && n == len(p)
-			for i := range p { // the logger reuses its buffer after the call
-				p[i] = '#'
+		back := returnsInTime(func() {
+			switch op.A {
+			case "W":
+				p := append([]byte(nil), trigLines[op.S]...)
+				n, err := w.WriteLevel(zerolog.Level(op.L), p)
+				ok = err == nil && n == len(p)
+				for i := range p { // the logger reuses its buffer after the call
+					p[i] = '#'
+				}
+			case "T":
+				ok = w.Trigger() == nil
+			case "C":
+				ok = w.Close() == nil
 			}
-		case "T":
-			ok = w.Trigger() == nil
-		case "C":
-			ok = w.Close() == nil
-		default:
+		})
+		if op.A != "W" && op.A != "T" && op.A != "C" {
 			return fmt.Errorf("unknown op %q", op.A)
+		}
+		if !back {
+			trigHung = true
+			out.emit(map[string]interface{}{"a": op.A, "l": op.L, "s": op.S, "out": [][2]int{}, "ok": false, "hung": true})
+			return nil // the writer is stuck: nothing more can be observed of this history
 		}
 		out.emit(map[string]interface{}{"a": op.A, "l": op.L, "s": op.S, "out": d.got, "ok": ok})
 	}
